@@ -293,7 +293,18 @@ func (g *Global) solveOne(vc *FnVC, ob *Obligation, timeoutS int, thorough bool)
 		keep(script, -1)
 		r.Status, r.Solver, r.Ms, r.Output, r.Agree, r.Detail = win.status, win.solver, win.ms, win.out, agree, detail
 	} else {
-		// every case must be unsat
+		// every case must be unsat; most obligations of a function (nil, bounds) do not need the split
+		// at all: try the unsplit goal briefly first when there are many cases
+		if len(vc.Cases) > 4 {
+			win, agree, detail, script := decideOb(vc, ob, -1, 3, false)
+			if win.status == "unsat" {
+				keep(script, -1)
+				r.Status, r.Solver, r.Ms, r.Output, r.Agree, r.Detail = win.status, win.solver, win.ms, win.out, agree, detail
+				r.OK = true
+				return r
+			}
+			r.Ms += win.ms
+		}
 		r.Status = "unsat"
 		r.Agree = 99
 		for k := range vc.Cases {
